@@ -270,7 +270,17 @@ def h_assemble(ctx, cfg):
         base, rem = divmod(npairs, k)
         needed = {c for c in range(k) if base + (1 if c < rem else 0) > 0}
         if not needed <= set(seq):
-            ctx.assume(False)
+            # a sequence (repeats allowed) that leaves a non-empty chunk out: whatever its entry counts add up to, the
+            # combination is incomplete and refuses to be densified
+            partial = dc.ChunkedDistanceMatrix.concat([dc.ChunkedDistanceMatrix.load(files[c]) for c in seq])
+            ctx.prove(not partial.is_complete(), "matrix missing a pair reports incomplete (chunk sequence with repeats)",
+                      key="incomplete combination reported complete")
+            try:
+                partial.to_dense()
+                ctx.fail("to_dense accepted a matrix that is missing pairs (chunk sequence with repeats)", key="incomplete combination densified")
+            except ValueError:
+                ctx.prove(True, "to_dense refuses a matrix that is missing pairs")
+            return seq
     combined = dc.ChunkedDistanceMatrix.concat([dc.ChunkedDistanceMatrix.load(files[c]) for c in seq])
     ctx.prove(combined.is_complete(), "combination of all chunks (any order, repeats allowed) is complete")
     dense = combined.to_dense().tolist()
